@@ -49,6 +49,9 @@ MALFORMED = [
     ["subroutine bar()", "end function bar"],
     ["module ma", "interface foo", "module procedure", "end module ma"],
     ["submodule (ma) sa", "contains", "module procedure foo"],
+    # an error FORD reports and survives (duplicate CONTAINS) inside an entity named like one of a valid file, then a fatal one
+    ["subroutine foo()", "contains", "contains", "end subroutine foo", "subroutine zz()"],
+    ["module ma", "contains", "contains", "subroutine bar()", "end subroutine bar", "end module ma", "program pk"],
 ]
 NSLOT = len(VALID)
 
